@@ -140,3 +140,55 @@ Example native_consistent_example : exists M',
   consistent_at 18 ex_model = true /\ std_native flags_current ex_model 22 = MDone M' [] /\
   consistent_at 22 M' = true /\ List.length (m_graph M') = 14%nat.
 Proof. eexists. split; [reflexivity|]. split; [vm_compute; reflexivity|]. split; reflexivity. Qed.
+
+(* ---------------------------------------------------------------- non-vacuity of the remaining implications *)
+Example expand_example : expand_scale 3 [1; 2] = [1; 1; 1; 2; 2; 2].
+Proof. reflexivity. Qed.
+
+Example gridsample_example :
+  gs_after (Node "GridSample" true None false [("mode"%string, AStr "bicubic")] [true; true] [] [])
+  = Some (Node "GridSample" true None false
+            [("align_corners"%string, AInt 0); ("mode"%string, AStr "cubic"); ("padding_mode"%string, AStr "zeros")]
+            [true; true] [] []).
+Proof. reflexivity. Qed.
+
+(* downgrade: raises, model untouched *)
+Example downgrade_example :
+  consistent_at 20 w_skip = true /\ std_native flags_current w_skip 19 = MRaised EDowngrade w_skip [].
+Proof. split; reflexivity. Qed.
+
+(* the pass: native branch, no-op branch, C-API branch (an oracle answering with a consistent graph), C-API failure *)
+Definition capi_19 (m : model) (t : Z) : option model := Some (Model (Some t) None [relu] []).
+Example pass_example :
+  (exists M', std_pass flags_current id_model id_model no_capi true w_proto 21 = MDone M' [] /\ consistent_at 21 M' = true) /\
+  std_pass flags_current id_model id_model no_capi true w_proto 19 = MDone w_proto [] /\
+  (exists M', std_pass flags_current id_model id_model capi_19 true w_skip 19 = MDone M' [] /\ consistent_at 19 M' = true) /\
+  std_pass flags_current id_model id_model no_capi true w_skip 19 = MDone w_skip [].
+Proof.
+  split; [eexists; split; [vm_compute; reflexivity|reflexivity]|].
+  split; [reflexivity|].
+  split; [eexists; split; [vm_compute; reflexivity|reflexivity]|reflexivity].
+Qed.
+
+(* the repaired wrapper on the witness of the refutation: now consistent at 20 *)
+Example proto_fixed_example : exists p',
+  proto_convert true (std_pass flags_current id_model id_model no_capi false) w_proto 20 = PDone p' [] /\
+  consistent_at 20 p' = true /\ List.length (m_graph p') = 3%nat.
+Proof. eexists. split; [vm_compute; reflexivity|split; reflexivity]. Qed.
+
+(* GroupNormalization adapter fires: g = 2, c = 6, c/g = 3 *)
+Definition gn_static :=
+  Node "GroupNormalization" true None false [("epsilon"%string, AFlt 1056964608); ("num_groups"%string, AInt 2)]
+       [true; true; true] [DStatic 6; DStatic 2; DStatic 2] [].
+Example gn_adapter_example :
+  gn_decide gn_static = GnExpand 2 3 /\
+  eps_of (n_attrs (gn_last flags_fixed gn_static 2 3)) = 1056964608 /\
+  expand_scale (Z.to_nat 3) [10; 20] = [10; 10; 10; 20; 20; 20].
+Proof. repeat split. Qed.
+
+(* DFT adapter, repaired variant, node without axis attribute on a rank-4 input: axis 1 on both sides *)
+Example dft_adapter_example :
+  dft20_axis 4 (dft_19_20 flags_fixed (Node "DFT" true None false [] [true] [] [])) (Node "DFT" true None false [] [true] [] [])
+  = dft19_axis 4 (Node "DFT" true None false [] [true] [] []) /\
+  dft19_axis 4 (Node "DFT" true None false [] [true] [] []) = Some 1.
+Proof. split; reflexivity. Qed.
